@@ -122,7 +122,7 @@ func (d *MsgPipeline) Start(ctx context.Context, msgMeta *module.MsgMetadata, ma
 		d:                  d,
 		rcptModifiersState: make(map[*rcptBlock]module.ModifierState),
 		deliveries:         make(map[module.DeliveryTarget]*delivery),
-		originalRcpts:      make(map[string]string),
+		originalRcpts:      make(map[string][]string),
 		msgMeta:            msgMeta,
 		log:                target.DeliveryLogger(d.Log, msgMeta),
 	}
@@ -259,6 +259,8 @@ type delivery struct {
 	module.Delivery
 	// Recipient addresses this delivery object is used for, original values (not modified by RewriteRcpt).
 	recipients []string
+	// Addresses passed to AddRcpt of the delivery object (after RewriteRcpt).
+	added map[string]bool
 	// Set by BodyNonAtomic if the message was not handed to the delivery
 	// object or its Body failed, all of its recipients got an error status
 	// then. Commit aborts such delivery instead of committing it.
@@ -281,11 +283,13 @@ type msgpipelineDelivery struct {
 	msgMeta     *module.MsgMetadata
 	checkRunner *checkRunner
 
-	// Rewrites done by this pipeline (result -> address passed to AddRcpt),
+	// Rewrites done by this pipeline (result -> addresses passed to AddRcpt),
 	// used to report per-recipient statuses. msgMeta.OriginalRcpts can't be
 	// used for that: it is shared with nested and enclosing pipelines and
-	// their rewrites would be undone here as well.
-	originalRcpts map[string]string
+	// their rewrites would be undone here as well. Several recipients can
+	// end up as the same address (aliases of one mailbox, or an alias and
+	// the mailbox itself), all of them are to get the status then.
+	originalRcpts map[string][]string
 }
 
 func (dd *msgpipelineDelivery) AddRcpt(ctx context.Context, to string, opts smtp.RcptOptions) error {
@@ -358,8 +362,8 @@ func (dd *msgpipelineDelivery) AddRcpt(ctx context.Context, to string, opts smtp
 
 			if originalTo != to {
 				dd.msgMeta.OriginalRcpts[to] = originalTo
-				dd.originalRcpts[to] = originalTo
 			}
+			dd.originalRcpts[to] = appendUnique(dd.originalRcpts[to], originalTo)
 
 			for _, tgt := range rcptBlock.targets {
 				// Do not wrap errors coming from nested pipeline target delivery since
@@ -376,10 +380,15 @@ func (dd *msgpipelineDelivery) AddRcpt(ctx context.Context, to string, opts smtp
 					return wrapErr(err)
 				}
 
-				if err := delivery.AddRcpt(ctx, to, opts); err != nil {
-					return wrapErr(err)
+				// The target gets each address once, even if several
+				// recipients were rewritten to it.
+				if !delivery.added[to] {
+					if err := delivery.AddRcpt(ctx, to, opts); err != nil {
+						return wrapErr(err)
+					}
+					delivery.added[to] = true
 				}
-				delivery.recipients = append(delivery.recipients, originalTo)
+				delivery.recipients = appendUnique(delivery.recipients, originalTo)
 			}
 		}
 	}
@@ -448,16 +457,28 @@ func (dd *msgpipelineDelivery) Body(ctx context.Context, header textproto.Header
 // collect-and-them-report approach since statuses should be reported
 // as soon as possible (that is required by LMTP).
 type statusCollector struct {
-	originalRcpts map[string]string
+	originalRcpts map[string][]string
 	wrapped       module.StatusCollector
 }
 
 func (sc statusCollector) SetStatus(rcptTo string, err error) {
-	original, ok := sc.originalRcpts[rcptTo]
-	if ok {
-		rcptTo = original
+	originals, ok := sc.originalRcpts[rcptTo]
+	if !ok {
+		sc.wrapped.SetStatus(rcptTo, err)
+		return
 	}
-	sc.wrapped.SetStatus(rcptTo, err)
+	for _, original := range originals {
+		sc.wrapped.SetStatus(original, err)
+	}
+}
+
+func appendUnique(list []string, s string) []string {
+	for _, v := range list {
+		if v == s {
+			return list
+		}
+	}
+	return append(list, s)
 }
 
 func (dd *msgpipelineDelivery) BodyNonAtomic(ctx context.Context, c module.StatusCollector, header textproto.Header, body buffer.Buffer) {
@@ -668,7 +689,7 @@ func (dd *msgpipelineDelivery) getDelivery(ctx context.Context, tgt module.Deliv
 		dd.log.Debugf("tgt.Start(%s) failure, target = %s: %v", dd.sourceAddr, objectName(tgt), err)
 		return nil, err
 	}
-	delivery_ = &delivery{Delivery: deliveryObj}
+	delivery_ = &delivery{Delivery: deliveryObj, added: map[string]bool{}}
 
 	dd.log.Debugf("tgt.Start(%s) ok, target = %s", dd.sourceAddr, objectName(tgt))
 
